@@ -29,6 +29,7 @@ import (
 	"github.com/thushan/olla/internal/config"
 	"github.com/thushan/olla/internal/verif/h/lib/hutil"
 	"github.com/thushan/olla/internal/verif/h/lib/report"
+	"github.com/thushan/olla/internal/verif/h/lib/stack"
 )
 
 var res *report.Result
@@ -530,6 +531,9 @@ func e1(depth int, contiguous bool) {
 					sb.WriteString(sseLine(e))
 				}
 				judge(part, seq, sb.String(), 0, contiguous, expectOf(seq))
+				if contiguous && len(seq) <= e2eDepth {
+					endToEnd(seq, sb.String(), expectOf(seq))
+				}
 				if idx%100003 == 5 {
 					res.Sample(map[string]any{"part": part, "events": seqStr(seq)})
 				}
@@ -701,6 +705,130 @@ func e2() {
 					}
 				}
 			}
+		}
+	}
+}
+
+// ---------------------------------------------------------------- E4 through the handler
+//
+// The translator is reached through the Anthropic route of the booted olla: the backend (a non-native,
+// OpenAI-compatible endpoint) serves the enumerated completion as an SSE stream, line by line, and as one JSON
+// document; what the client receives must be what the translator produces for the same backend bytes
+// (message id aside). The translator's own output is judged by E1/E2; this part binds the handler, the proxy
+// engine, the pipe between them and the response writer to it.
+
+var (
+	e2eDepth = 3
+	e2eWorld = map[string]*e2e{}
+)
+
+type e2e struct {
+	o  *stack.Olla
+	be *stack.Backend
+}
+
+func e2eFor(engine string) *e2e {
+	if w, ok := e2eWorld[engine]; ok {
+		return w
+	}
+	be := stack.NewBackend("A", "openai-compatible", true)
+	be.ModelsBody = func() []byte { return stack.OpenAIModels("m-stream") }
+	o, err := stack.Boot(stack.Opts{Engine: engine, Balancer: "priority", ModelDiscovery: true, Endpoints: []stack.EP{{B: be, Priority: 100}},
+		Mutate: func(c *config.Config) { c.Translators.Anthropic.PassthroughEnabled = false }})
+	if err != nil {
+		res.Break("E4 boot: %v", err)
+		e2eWorld[engine] = nil
+		return nil
+	}
+	w := &e2e{o, be}
+	e2eWorld[engine] = w
+	return w
+}
+
+func closeE2E() {
+	for _, w := range e2eWorld {
+		if w != nil {
+			w.o.Stop()
+			w.be.Close()
+		}
+	}
+}
+
+func endToEnd(seq []ev, input string, x expect) {
+	for _, engine := range []string{"sherpa", "olla"} {
+		w := e2eFor(engine)
+		if w == nil {
+			return
+		}
+		desc := fmt.Sprintf("E4 engine=%s: stream [%s]", engine, seqStr(seq))
+		rp := map[string]any{"engine": "ops-stack", "part": "E4", "world": engine, "events": seqStr(seq)}
+		// streaming: one backend line per write
+		var steps [][]byte
+		for _, e := range seq {
+			steps = append(steps, []byte(sseLine(e)))
+		}
+		w.be.Reset()
+		w.be.SetFixed(stack.Behaviour{Kind: "respond", Status: 200, Framing: "chunked", Steps: steps, Cut: -1, After: "complete", Headers: [][2]string{{"Content-Type", "text/event-stream"}}})
+		r := stack.Do(w.o.Addr, &stack.Req{Method: "POST", Target: "/olla/anthropic/v1/messages", Timeout: 10 * time.Second, Headers: [][2]string{{"Content-Type", "application/json"}, {"anthropic-version", "2023-06-01"}},
+			Body: []byte(`{"model":"m-stream","max_tokens":64,"stream":true,"messages":[{"role":"user","content":"hi"}]}`)})
+		res.Add("traces_validated_against_impl", 1)
+		res.Add("transitions", int64(len(seq)+1))
+		direct, derr, crash := runStream(input, 0)
+		if crash == "" && derr == nil {
+			if r.TimedOut || r.Status != 200 {
+				violate("handler-fails-where-translator-succeeds", map[string]any{"part": "E4", "stream": true}, desc+"\nclient: "+r.String(), rp)
+			} else if got, want := msgID.ReplaceAllString(string(r.Body), "msg_X"), msgID.ReplaceAllString(string(direct), "msg_X"); got != want {
+				violate("handler-delivers-something-else", map[string]any{"part": "E4", "stream": true}, desc+fmt.Sprintf("\ntranslator output for the backend's bytes:\n%s\nclient received:\n%s", trunc(want, 1500), trunc(got, 1500)), rp)
+			}
+		}
+		// buffered: the same completion as one document (only sequences that describe a finished completion)
+		if x.stop == "" {
+			continue
+		}
+		msg := map[string]any{"role": "assistant", "content": x.text}
+		if x.text == "" {
+			msg["content"] = nil
+		}
+		valid := true
+		if len(x.calls) > 0 {
+			var tcs []any
+			for _, c := range x.calls {
+				var tmp map[string]any
+				if json.Unmarshal([]byte(orEmpty(c.args)), &tmp) != nil {
+					valid = false
+				}
+				tcs = append(tcs, map[string]any{"id": c.id, "type": "function", "function": map[string]any{"name": c.name, "arguments": c.args}})
+			}
+			msg["tool_calls"] = tcs
+		}
+		if !valid {
+			continue
+		}
+		comp := map[string]any{"id": "c1", "object": "chat.completion", "model": "m-stream", "choices": []any{map[string]any{"index": 0, "message": msg, "finish_reason": x.stop}},
+			"usage": map[string]any{"prompt_tokens": x.in, "completion_tokens": x.out, "total_tokens": x.in + x.out}}
+		cb, _ := json.Marshal(comp)
+		w.be.Reset()
+		w.be.SetFixed(stack.OK(string(cb)))
+		r = stack.Do(w.o.Addr, &stack.Req{Method: "POST", Target: "/olla/anthropic/v1/messages", Timeout: 10 * time.Second, Headers: [][2]string{{"Content-Type", "application/json"}, {"anthropic-version", "2023-06-01"}},
+			Body: []byte(`{"model":"m-stream","max_tokens":64,"messages":[{"role":"user","content":"hi"}]}`)})
+		res.Add("traces_validated_against_impl", 1)
+		var compDoc map[string]any
+		json.Unmarshal(cb, &compDoc)
+		br, berr := tr.TransformResponse(context.Background(), compDoc, nil)
+		if berr != nil {
+			continue // E1 reports it
+		}
+		want, _ := json.Marshal(br)
+		var gotDoc, wantDoc any
+		if r.Status != 200 || json.Unmarshal(r.Body, &gotDoc) != nil {
+			violate("handler-fails-where-translator-succeeds", map[string]any{"part": "E4", "stream": false}, desc+" (buffered)\nclient: "+r.String(), rp)
+			continue
+		}
+		json.Unmarshal(want, &wantDoc)
+		g, _ := json.Marshal(gotDoc)
+		wn, _ := json.Marshal(wantDoc)
+		if gs, ws := msgID.ReplaceAllString(string(g), "msg_X"), msgID.ReplaceAllString(string(wn), "msg_X"); gs != ws {
+			violate("handler-delivers-something-else", map[string]any{"part": "E4", "stream": false}, desc+fmt.Sprintf(" (buffered)\ntranslator: %s\nclient:     %s", trunc(ws, 1200), trunc(gs, 1200)), rp)
 		}
 	}
 }
@@ -906,11 +1034,16 @@ func main() {
 	if report.Thorough() {
 		depth = 6
 	}
+	if report.Thorough() {
+		e2eDepth = 4
+	}
 	e1(depth, true)
+	closeE2E()
 	e1(depth-1, false)
 	e3()
 	e2()
 	res.Info["E3"] = "pairs from a catalogue of 5 (6 thorough) streams translated at the same time by one translator instance, one backend line per turn, every order of the turns; each output must equal the stream's output when translated alone"
+	res.Info["E4"] = fmt.Sprintf("every contiguous sequence to depth %d also through /olla/anthropic/v1/messages of the booted olla (both engines; streaming line by line, and buffered where the sequence is a finished completion): the client must receive what the translator produces for the same backend bytes", e2eDepth)
 	res.Info["bounds"] = map[string]any{"E1_depth": depth, "E1_alphabet": []string{"text(a)", "text(é🌍)", "tool-start", "tool-start+args", "args fragment", "finish(stop|tool_calls|length)", "usage", "malformed line", "[DONE]", "comment"},
 		"E1_noncontiguous_depth": depth - 1, "E2": "4 texts x 0..2 (4 thorough) tool calls x 3 argument values x all compositions of the text x argument cuts (<=2) x transport chunk {whole,1,2,3,7} x malformed line at every position"}
 	res.Info["rule"] = "every enumerated stream is fed to the real TransformStreamingResponse; states = distinct (block structure, stop reason) outcomes; every prefix of a sequence is itself an enumerated stream"
